@@ -123,4 +123,83 @@ theorem tensorQ_trace (asinh atan sqrt : Rat → Rat) (pi : Rat) (hpi : pi ≠ 0
   · rw [if_pos hc, if_pos (by omega)]
   · rw [if_neg hc, if_neg (by omega)]
 
+/-! ## the cube -/
+
+/-- for a cube each of the three summed field components is a third of the total; trace and cyclic
+symmetry of the tensor are only needed on the displacement grid -/
+theorem cube_third_inrange (T : NDA (List Rat)) (m : Mesh) (M : Rat) (n : Nat)
+    (hn0 : m.nAt 0 = n) (hn1 : m.nAt 1 = n) (hn2 : m.nAt 2 = n)
+    (hT : ∀ j0 j1 j2, j0 < 2 * n - 1 → j1 < 2 * n - 1 → j2 < 2 * n - 1 →
+      (T.get [j0, j1, j2]).getD 0 0 + (T.get [j0, j1, j2]).getD 1 0 + (T.get [j0, j1, j2]).getD 2 0
+      = if j0 = n - 1 ∧ j1 = n - 1 ∧ j2 = n - 1 then -1 else 0)
+    (hsym : ∀ j0 j1 j2, j0 < 2 * n - 1 → j1 < 2 * n - 1 → j2 < 2 * n - 1 →
+      (T.get [j0, j1, j2]).getD 1 0 = (T.get [j1, j2, j0]).getD 0 0 ∧
+      (T.get [j0, j1, j2]).getD 2 0 = (T.get [j2, j0, j1]).getD 0 0)
+    (a : Nat) (ha : a < 3) :
+    sum3 n n n (fun q0 q1 q2 => linConv T (uniF m M a) a [q0, q1, q2]) = -M * (n : Rat) ^ 3 / 3 := by
+  have key : ∀ a, a < 3 → ∀ q0 q1 q2, linConv T (uniF m M a) a [q0, q1, q2]
+      = sum3 n n n fun r0 r1 r2 =>
+          (T.get [q0 + (n - 1) - r0, q1 + (n - 1) - r1, q2 + (n - 1) - r2]).getD a 0 * M := by
+    intro a ha q0 q1 q2
+    rw [linConv_uniF T m M a ha, hn0, hn1, hn2]
+  let W : Nat → Nat → Nat → Nat → Nat → Nat → Rat := fun q0 q1 q2 r0 r1 r2 =>
+    (T.get [q0 + (n - 1) - r0, q1 + (n - 1) - r1, q2 + (n - 1) - r2]).getD 0 0 * M
+  let S : Nat → Rat := fun a => sum3 n n n (fun q0 q1 q2 => linConv T (uniF m M a) a [q0, q1, q2])
+  have hS0 : S 0 = sum3 n n n (fun q0 q1 q2 => sum3 n n n (fun r0 r1 r2 => W q0 q1 q2 r0 r1 r2)) :=
+    sum3_congr n n n _ _ (fun q0 q1 q2 _ _ _ => key 0 (by omega) q0 q1 q2)
+  have hS1 : S 1 = S 0 := by
+    rw [hS0]
+    have : S 1 = sum3 n n n (fun q0 q1 q2 => sum3 n n n (fun r0 r1 r2 => W q1 q2 q0 r1 r2 r0)) :=
+      sum3_congr n n n _ _ (fun q0 q1 q2 h0 h1 h2 => by
+        rw [key 1 (by omega) q0 q1 q2]
+        exact sum3_congr n n n _ _ (fun r0 r1 r2 g0 g1 g2 => by
+          rw [(hsym _ _ _ (by omega) (by omega) (by omega)).1]))
+    rw [this]
+    rw [sum3_congr n n n _ (fun q0 q1 q2 => sum3 n n n (fun r0 r1 r2 => W q1 q2 q0 r0 r1 r2))
+      (fun q0 q1 q2 _ _ _ => sum3_rot n (fun r0 r1 r2 => W q1 q2 q0 r0 r1 r2))]
+    exact sum3_rot n (fun q0 q1 q2 => sum3 n n n (fun r0 r1 r2 => W q0 q1 q2 r0 r1 r2))
+  have hS2 : S 2 = S 0 := by
+    rw [hS0]
+    have : S 2 = sum3 n n n (fun q0 q1 q2 => sum3 n n n (fun r0 r1 r2 => W q2 q0 q1 r2 r0 r1)) :=
+      sum3_congr n n n _ _ (fun q0 q1 q2 h0 h1 h2 => by
+        rw [key 2 (by omega) q0 q1 q2]
+        exact sum3_congr n n n _ _ (fun r0 r1 r2 g0 g1 g2 => by
+          rw [(hsym _ _ _ (by omega) (by omega) (by omega)).2]))
+    rw [this]
+    rw [sum3_congr n n n _ (fun q0 q1 q2 => sum3 n n n (fun r0 r1 r2 => W q2 q0 q1 r0 r1 r2))
+      (fun q0 q1 q2 _ _ _ => by
+        rw [← sum3_rot n (fun r0 r1 r2 => W q2 q0 q1 r0 r1 r2)]
+        exact sum3_rot n (fun r0 r1 r2 => W q2 q0 q1 r1 r2 r0))]
+    rw [← sum3_rot n (fun q0 q1 q2 => sum3 n n n (fun r0 r1 r2 => W q0 q1 q2 r0 r1 r2))]
+    exact sum3_rot n (fun q0 q1 q2 => sum3 n n n (fun r0 r1 r2 => W q1 q2 q0 r0 r1 r2))
+  have htot : S 0 + S 1 + S 2 = -M * (n : Rat) ^ 3 := by
+    show sum3 n n n _ + sum3 n n n _ + sum3 n n n _ = _
+    rw [← sum3_add, ← sum3_add]
+    rw [sum3_congr n n n _ (fun _ _ _ => -M) (fun q0 q1 q2 h0 h1 h2 =>
+      cuboid_sum_inrange T m M (by rw [hn0, hn1, hn2]; exact hT) q0 q1 q2 (by omega) (by omega) (by omega))]
+    rw [sum3_const]; ring
+  have h3 : S a = S 0 := by
+    rcases (by omega : a = 0 ∨ a = 1 ∨ a = 2) with rfl | rfl | rfl
+    · rfl
+    · exact hS1
+    · exact hS2
+  show S a = _
+  rw [h3]
+  rw [hS1, hS2] at htot
+  linarith
+
+/-- the model's tensor has the cyclic symmetry on a cube (equal counts, equal cell edges) -/
+theorem tensorQ_cubic (asinh atan sqrt : Rat → Rat) (pi : Rat) (m : Mesh) (n : Nat)
+    (hn0 : m.nAt 0 = n) (hn1 : m.nAt 1 = n) (hn2 : m.nAt 2 = n)
+    (hc1 : m.cellAt 1 = m.cellAt 0) (hc2 : m.cellAt 2 = m.cellAt 0) (j0 j1 j2 : Nat) :
+    ((tensorQ asinh atan sqrt pi m).get [j0, j1, j2]).getD 1 0 = ((tensorQ asinh atan sqrt pi m).get [j1, j2, j0]).getD 0 0 ∧
+    ((tensorQ asinh atan sqrt pi m).get [j0, j1, j2]).getD 2 0 = ((tensorQ asinh atan sqrt pi m).get [j2, j0, j1]).getD 0 0 := by
+  have p1 : ∀ j, arrPoint m 1 j = arrPoint m 0 j := by
+    intro j; unfold arrPoint; rw [hn1, hn0, hc1]
+  have p2 : ∀ j, arrPoint m 2 j = arrPoint m 0 j := by
+    intro j; unfold arrPoint; rw [hn2, hn0, hc2]
+  unfold tensorQ tensorArr nAll
+  simp only [List.map_cons, List.getD_cons_zero, List.getD_cons_succ, hc1, hc2, p1, p2]
+  trivial
+
 end DFV.C19
